@@ -54,6 +54,7 @@ class Seam:
         self.bw_fault_at = None          # raise before the k-th backward-function invocation (1-based, relative to bw_count)
         self.bw_count = 0
         self.rng_calls = None            # list of (name, size) when recording
+        self.bw_created = None           # list of BackwardFunction objects constructed, when tracing is on
 
     def arm(self, kind, after_entries, name_filter=None):
         """raise `kind` at the (after_entries)-th kernel entry from now (1 = the next one)"""
@@ -135,6 +136,15 @@ def install_seams():
 
     traced_call.__wrapped__ = orig_call
     BF.__call__ = traced_call
+    orig_init = BF.__init__
+
+    def traced_init(self, *a, **k):
+        orig_init(self, *a, **k)
+        if SEAM.bw_created is not None:
+            SEAM.bw_created.append(self)
+
+    traced_init.__wrapped__ = orig_init
+    BF.__init__ = traced_init
     _installed = True
 
 
@@ -184,6 +194,7 @@ def fresh_modes(SG):
         T.gradient__, T.retain_grads__ = True, False
         S = SEAM
         saved = (S.fault_at, S.fault_kind, S.fault_filter, S.bw_fault_at, S.bw_calls, S.kernel_names)
+        saved_created, S.bw_created = S.bw_created, None
         counts = (S.kernel_entries, S.bw_count)      # model work is not part of the run's event numbering
         S.fault_at = S.fault_filter = S.bw_fault_at = S.bw_calls = S.kernel_names = None
         try:
@@ -192,4 +203,5 @@ def fresh_modes(SG):
             T.gradient__, T.retain_grads__ = g, r
             S.fault_at, S.fault_kind, S.fault_filter, S.bw_fault_at, S.bw_calls, S.kernel_names = saved
             S.kernel_entries, S.bw_count = counts
+            S.bw_created = saved_created
     return cm()
